@@ -38,7 +38,7 @@ func exprText(fset *token.FileSet, e ast.Node) string {
 	printer.Fprint(&b, fset, e)
 	s := strings.Join(strings.Fields(b.String()), " ")
 	if len(s) > 90 {
-		s = s[:90] + "…"
+		s = s[:90] + "..."
 	}
 	return s
 }
@@ -100,9 +100,9 @@ func runState(tier string, seed uint64, out string) {
 								// the kind of initialiser is what matters (an error value, a literal table, a pool, a map)
 								switch v := v.(type) {
 								case *ast.CallExpr:
-									desc += " = " + exprText(fset, v.Fun) + "(…)"
+									desc += " = " + exprText(fset, v.Fun) + "(...)"
 								case *ast.CompositeLit:
-									desc += " = " + exprText(fset, v.Type) + "{…}"
+									desc += " = " + exprText(fset, v.Type) + "{...}"
 								default:
 									desc += " = " + exprText(fset, v)
 								}
@@ -192,7 +192,7 @@ func runState(tier string, seed uint64, out string) {
 	must(os.MkdirAll(out, 0o755))
 	var b strings.Builder
 	b.WriteString("(* generated by `vharness aux state` from the current source of /repo — do not edit *)\n")
-	b.WriteString("From Coq Require Import List String.\nImport ListNotations.\nOpen Scope string_scope.\n\n")
+	b.WriteString("From Coq Require Import List String.\nFrom GenqlV Require Import Base.Prelude.\nImport ListNotations.\nOpen Scope string_scope.\n\n")
 	emit := func(name string, l [][2]string) {
 		fmt.Fprintf(&b, "Definition %s : list (string * string) := [\n", name)
 		for i, e := range l {
